@@ -1,9 +1,106 @@
-(* Props/C08.v — property theorems only. Each is closed by `exact <lemma>`. *)
-From Coq Require Import List NArith.
-From Mimium Require Import StateTree.Model StateTree.Lemmas.
+(* Props/C08.v — property theorems only; each closed by `exact <lemma>` (proofs in StateTree/Lemmas.v).
+
+   C08: "For every pair of old and new state layouts, the computed migration copies only between
+   subtrees of identical shape, stays inside both storages, never writes a destination word twice,
+   preserves the order of siblings, and leaves every other word zero; identical layouts produce a
+   no-op. If the new layout differs from the old one only by removed or added subtrees, every word
+   of every surviving subtree is carried over (up to exchange among identically shaped siblings)."
+
+   All theorems quantify over ALL layouts (no size bound). *)
+From Coq Require Import List NArith Permutation.
+From Mimium Require Import StateTree.Model StateTree.Lemmas StateTree.Apply StateTree.Embeds.
 Import ListNotations.
 Local Open Scope N_scope.
 
 (* identical layouts produce a no-op *)
 Theorem C08_identical_noop : forall s : skel, plan s s = None.
 Proof. exact plan_identical_none. Qed.
+
+(* and conversely a no-op is only produced for identical layouts *)
+Theorem C08_noop_only_identical : forall o n : skel, plan o n = None -> o = n.
+Proof. exact plan_none_eq. Qed.
+
+(* every patch copies a whole subtree of the old layout onto a whole subtree of the new layout of
+   identical shape, at exactly the addresses the layouts assign to those subtrees *)
+Theorem C08_same_shape : forall (o n : skel) (p : patch),
+  In p (take_diff o n) ->
+  exists (po pn : list nat) (t : skel),
+    subtree o po = Some t /\ subtree n pn = Some t /\
+    path_to_address o po = Some (p_src p, p_sz p) /\
+    path_to_address n pn = Some (p_dst p, p_sz p).
+Proof. exact take_diff_same_shape. Qed.
+
+(* stays inside both storages *)
+Theorem C08_in_bounds : forall (o n : skel) (p : patch),
+  In p (take_diff o n) ->
+  p_src p + p_sz p <= size o /\ p_dst p + p_sz p <= size n.
+Proof. exact take_diff_in_bounds. Qed.
+
+(* never writes a destination word twice (and never reads a source word twice) *)
+Theorem C08_dst_disjoint : forall (o n : skel) (p q : patch),
+  In p (take_diff o n) -> In q (take_diff o n) -> p <> q ->
+  (p_dst p + p_sz p <= p_dst q \/ p_dst q + p_sz q <= p_dst p) /\
+  (p_src p + p_sz p <= p_src q \/ p_src q + p_sz q <= p_src p).
+Proof. exact take_diff_disjoint. Qed.
+
+(* preserves order: the copies never cross (hence sibling order is preserved at every level) *)
+Theorem C08_order : forall (o n : skel) (p q : patch),
+  In p (take_diff o n) -> In q (take_diff o n) ->
+  0 < p_sz p -> 0 < p_sz q ->
+  p_dst p < p_dst q -> p_src p < p_src q.
+Proof. exact take_diff_order. Qed.
+
+(* applying the plan to any old storage of the right size never fails, produces a storage of
+   exactly the new size, whose word i is the old word at the corresponding position when i lies in
+   some patch, and zero otherwise *)
+Theorem C08_zero_elsewhere : forall (o n : skel) (total : N) (ps : list patch) (old : list N),
+  plan o n = Some (total, ps) -> length old = N.to_nat (size o) ->
+  exists st, apply_plan old total ps = Some st /\ length st = N.to_nat (size n) /\
+    forall i, (i < length st)%nat ->
+      (forall p, In p ps -> p_dst p <= N.of_nat i < p_dst p + p_sz p ->
+         nth i st 0 = nth (N.to_nat (p_src p) + (i - N.to_nat (p_dst p))) old 0) /\
+      ((forall p, In p ps -> ~ (p_dst p <= N.of_nat i < p_dst p + p_sz p)) -> nth i st 0 = 0).
+Proof. exact plan_apply_spec. Qed.
+
+(* the hash-set iteration order of the patches is irrelevant *)
+Theorem C08_perm : forall (o n : skel) (total : N) (ps ps' : list patch) (old : list N),
+  plan o n = Some (total, ps) -> Permutation ps ps' -> length old = N.to_nat (size o) ->
+  apply_plan old total ps' = apply_plan old total ps.
+Proof. exact plan_apply_perm. Qed.
+
+(* ---- last sentence of the property ("survivors") ----
+   `embeds new old`: new is obtained from old by deleting subtrees at any depth
+   (Inductive embeds / embeds_list, defined in StateTree/Embeds.v:
+      emb_eq   : embeds s s
+      emb_call : embeds_list ns os -> embeds (FnCall ns) (FnCall os)
+      el_nil   : embeds_list [] []
+      el_skip  : embeds_list ns os -> embeds_list ns (o :: os)
+      el_keep  : embeds n o -> embeds_list ns os -> embeds_list (n :: ns) (o :: os) ) *)
+
+(* On the code as it stands the survivors clause is FALSE (finding F1): *)
+Theorem C08_survivors_refuted :
+  exists o n : skel, embeds n o /\
+    exists total ps, plan o n = Some (total, ps) /\ sumN (map p_sz ps) < size n.
+Proof. exact survivors_refuted. Qed.
+(* witness: o = FnCall [FnCall [Mem 1; Feed 1; Mem 1]; FnCall [Mem 1; Delay 1]], n = FnCall [FnCall [Mem 1; Feed 1; Mem 1]] *)
+
+(* Restricted positive theorem: layouts whose root children are all leaves (no nested call, hence no
+   partial sibling match): every word of the new layout is carried when new ⊑ old, and every word of
+   the old layout is carried when old ⊑ new.   is_leaf s := match s with FnCall _ => False | _ => True end *)
+Theorem C08_survivors_flat_partial : forall os ns : list skel,
+  Forall is_leaf os -> Forall is_leaf ns ->
+  forall total ps, plan (FnCall os) (FnCall ns) = Some (total, ps) ->
+    (embeds (FnCall ns) (FnCall os) -> sumN (map p_sz ps) = size (FnCall ns)) /\
+    (embeds (FnCall os) (FnCall ns) -> sumN (map p_sz ps) = size (FnCall os)).
+Proof. exact survivors_flat. Qed.
+
+(* hypotheses are satisfiable / theorems are not vacuous *)
+Example C08_example_nontrivial_plan :
+  plan (FnCall [Delay 1; Mem 1]) (FnCall [Delay 1; Feed 1; Mem 1])
+  = Some (5, [mkPatch 0 0 3; mkPatch 3 4 1]).
+Proof. vm_compute. reflexivity. Qed.
+
+Example C08_example_embeds :
+  embeds (FnCall [FnCall [Mem 1; Feed 1; Mem 1]])
+         (FnCall [FnCall [Mem 1; Feed 1; Mem 1]; FnCall [Mem 1; Delay 1]]).
+Proof. apply emb_call. apply el_keep; [apply emb_eq|]. apply el_skip. apply el_nil. Qed.
